@@ -207,7 +207,12 @@ What the misses had in common, and the generator / harness changes they led to (
   stored form only matters at the next `update()` (C19-7; negative indices are now generated and the original and
   every reloaded lens receive the same later edits + `update()` before their behaviour is compared again).
 * *Harness robustness*: C10-3 (a fit returning 36 instead of 37 coefficients) crashed the harness (exit 2) instead of
-  being reported; the shape is now a checked clause.
+  being reported; the shape is now a checked clause.  C10-7 (a factorial table too short for Fringe terms above 78)
+  did the same with an `IndexError` out of `get_term`.  Besides the two new clauses in C10, `harness/main.py` now
+  treats *any* exception that escapes a harness as follows: when its innermost frame lies in `<repo>/optiland` the
+  call that raised is a failing input (every harness catches the exceptions its property allows), reported as
+  `VIOLATION` with the traceback, the raising line and the harness call in `replays/<P>_crash_<hash>.json`;
+  otherwise it is an infrastructure error (exit 2) as before.
 * *Seed dependence*: C09-3/4 were caught for seeds 0–2 and missed for seed 3 of the quick tier (150 cases); this led to
   the regression corpus above.
 
